@@ -486,7 +486,7 @@ harnesses! {
 
     // ------------------------------------------------------------- slow ratios on FastFixedIn (1/r > 7):
     // frames are rare, the carried position is far back; uniform spacing across chunk boundaries
-    #[kani::unwind(8)]
+    #[kani::unwind(10)]
     fn c07_ffi_slow(nd) {
         // concrete slow ratio (1/r = 10 > 7): frames are rare and the carried position is far back
         let mut r = FastFixedIn::<f64>::new(0.1, 1.0, PolynomialDegree::Linear, 7, 1).unwrap();
